@@ -341,6 +341,48 @@ func callBuiltin(caller *frame, callpos token.Pos, fn *ssa.Builtin, args []value
 
 	case "ssa:deferstack":
 		return &caller.defers
+
+	// unsafe.{SliceData,StringData,String,Slice}: pointers into byte
+	// sequences are tracked in a side table
+	case "SliceData":
+		sl, _ := args[0].([]value)
+		if cap(sl) == 0 {
+			return (*value)(nil)
+		}
+		sl = sl[:cap(sl)]
+		caller.i.unsafeData[&sl[0]] = sl
+		return &sl[0]
+	case "StringData":
+		b := strBytes(args[0])
+		if len(b) == 0 {
+			return (*value)(nil)
+		}
+		cp := make([]value, len(b))
+		copy(cp, b)
+		caller.i.unsafeData[&cp[0]] = cp
+		return &cp[0]
+	case "String":
+		p := args[0].(*value)
+		n := concreteInt(args[1], "unsafe.String len")
+		if n == 0 {
+			return ""
+		}
+		sl, ok := caller.i.unsafeData[p]
+		if !ok || int(n) > len(sl) {
+			panic(engineError("unsafe.String: untracked pointer"))
+		}
+		return mkStr(caller.i.x, sl[:n])
+	case "Slice":
+		p := args[0].(*value)
+		n := concreteInt(args[1], "unsafe.Slice len")
+		if p == nil {
+			return []value(nil)
+		}
+		sl, ok := caller.i.unsafeData[p]
+		if !ok || int(n) > len(sl) {
+			panic(engineError("unsafe.Slice: untracked pointer"))
+		}
+		return sl[:n:n]
 	}
 
 	panic(engineError("unknown built-in: " + fn.Name()))
